@@ -171,10 +171,13 @@ class Function:
         for it in d.get("inits", []):
             self.inits.append((it, Node(it["e"], None, self) if it.get("e") else None))
         self.nodes = {}
+        aliases = _unhoist_conditions(self.body) if self.body is not None else {}
         if self.body is not None:
             for n in self.body.walk():
                 if n.i is not None:
                     self.nodes.setdefault(n.i, n)
+        for i_, n in aliases.items():
+            self.nodes.setdefault(i_, n)
         for _it, n in self.inits:
             if n is not None:
                 for m in n.walk():
@@ -227,6 +230,52 @@ class Function:
 
 
 # ---------------------------------------------------------------------------------------------------------
+def _unhoist_conditions(body):
+    """canonical form: `const bool h = C; if (h) ...` with h used nowhere else is `if (C) ...` - the condition stands where it is
+    tested (rules read IfStmt conditions, and branch facts are taken from them).  Only for a declaration that is the statement
+    immediately before the if in the same block, so nothing can change an operand of C in between.  Returns {id of the replaced
+    reference: node that stands there now} for the flow graph's condition look-up."""
+    aliases = {}
+    if body is None:
+        return aliases
+    refs = {}
+    for n in body.walk():
+        if n.d.get("k") == "DeclRefExpr" and n.d.get("dk") == "local":
+            refs.setdefault(n.d.get("d"), []).append(n)
+    for blk in list(body.walk()):
+        if blk.d.get("k") != "CompoundStmt":
+            continue
+        for a, b in zip(blk.c, blk.c[1:]):
+            if a.d.get("k") != "DeclStmt" or len(a.c) != 1 or b.d.get("k") != "IfStmt" or not b.c:
+                continue
+            v = a.c[0]
+            if v.d.get("k") != "VarDecl" or len(v.c) != 1 or (v.d.get("t") or "").replace("const ", "").strip() != "bool":
+                continue
+            rs = refs.get(v.d.get("d"), [])
+            if len(rs) != 1:
+                continue
+            r = rs[0]
+            # the reference is inside the condition of the if
+            x, inside = r, False
+            while x is not None:
+                if x is b.c[0]:
+                    inside = True
+                    break
+                if x is b:
+                    break
+                x = x.parent
+            if not inside or r.parent is None:
+                continue
+            init = v.c[0]
+            par = r.parent
+            par.c = [init if y is r else y for y in par.c]
+            init.parent = par
+            v.c = []
+            if r.d.get("i") is not None:
+                aliases[r.d.get("i")] = init
+    return aliases
+
+
 # canonical keys
 
 
